@@ -1,4 +1,7 @@
-"""C04, layer 1 (pure range algebra of deletion): theorems in coq/Props/PropC04.v
+"""C04.  Layer 2 (history retrieval, permissions, delete transactions, deletion log over the
+product model) is in tools/props/c04hist.py and runs after layer 1.
+
+Layer 1 (pure range algebra of deletion): theorems in coq/Props/PropC04.v
 about coq/Pure/Ranges.v; correspondence against the real
 sort.Sort(types.RangeSorter) + RangeSorter.Normalize (harness/ext/c04.go) and
 the real Topic.replyDelMsg (harness/overlay/server/zz_verif_c04_test.go).
@@ -17,8 +20,10 @@ Only the covered SET is demanded (the property's "exactly the union ... never
 any ID outside"); order / disjointness of the output is a theorem about the
 model and part of the correspondence, not a law."""
 import itertools
+import json
 import time
 from props import purelib
+from props import c04hist
 
 DOM = 7           # low, hi in 0..6 for the exhaustive part
 ALL = [(l, h) for l in range(DOM) for h in range(DOM)]
@@ -289,7 +294,80 @@ def which_normalize(ctx, run_impl):
     ctx.coverage["which_normalize_cases"] = len(lines)
 
 
+class _Layer1Done(Exception):
+    pass
+
+
+RULE2 = ("layer 2: seeded histories over one group topic, 2-4 users x 1-2 sessions; members drawn from the populations "
+         "R-without-D / R+D / D given but not wanted / D wanted but not given / D without R / neither; owner with or without D in want; "
+         "2-6 initial publishes then 8-22 requests: delete (30%, half hard; 1-4 ranges built from duplicate / adjacent / one-apart / "
+         "overlapping / nested / single / open / beyond-lastID moves, 3% invalid), get data with since/before/limit around 0, lastID, "
+         "lastID+1 and limit above the maximum, get del with transaction windows, publishes, permission edits by the owner and by the "
+         "member, leave with and without unsub, re-attach, unload (after everybody left), restart; every history ends with every "
+         "session reading the whole history and (70%) the deletion log; 15% of the histories with single failing/crashing store calls "
+         "(inside a delete request only its first call); non-trivial = at least one accepted delete; distinct by (ops, replies)")
+TRUSTED2 = [
+    "harness/overlay/server/zz_verif_topic_test.go: drives the real Hub/Topic/Session code through Session.dispatchRaw, quiescence by goroutine-state snapshot",
+    "harness/overlay/server/db/memverif: in-memory adapter written from db/mysql/adapter.go (store contract modelled, not verified; the SQL engines are not run); its message and dellog rows are what the row laws read",
+    "tools/props/c04hist.py monitor: python restatement of hs_step / event_of / req_ids and of the layer-2 theorems on the implementation's trace",
+    "projection compared for C04 layer 2: data frames, {meta del}, 20x/40x replies of get data / get del / del msg / pub, message rows, dellog rows, stored and cached delete counters (topic and per user), lastID",
+    "model scope: one group topic (non-channel: 'author withheld from channel readers' is not covered), LevelAuth users, timestamps not compared, one topic per history (the store holds the topics of all histories of the run, so a cross-topic leak would show as a foreign message)",
+]
+
+
 def run(ctx):
+    if ctx.replay:
+        rp = json.load(open(ctx.replay))
+        if isinstance(rp.get("replay"), dict) and "head" in rp["replay"]:
+            # a layer-2 replay: one history
+            ctx.coq_props()
+            import vlib
+            vlib.proof_violation(ctx)
+            ok, out = ctx.build_runner()
+            if not ok:
+                ctx.violation("proof", "extraction-broken", "model extraction/runner build failed: " + out[-1500:],
+                              {"theorem_or_obligation": "extraction of the model"})
+                ctx.finish()
+            cov = c04hist.run_layer2(ctx)
+            ctx.coverage.update(cov)
+            ctx.coverage["rule"] = RULE2
+            ctx.coverage["trusted_base"] = TRUSTED2
+            ctx.finish()
+        run_layer1(ctx)      # a layer-1 replay: finishes there
+        return
+    real_finish = ctx.finish
+
+    def stop(*a, **kw):
+        raise _Layer1Done()
+    ctx.finish = stop
+    try:
+        run_layer1(ctx)
+    except _Layer1Done:
+        pass
+    ctx.finish = real_finish
+    if ctx.violations or not ctx.proof_ok():
+        ctx.finish()
+    l1 = dict(ctx.coverage)
+    t1 = time.time()
+    cov2 = c04hist.run_layer2(ctx)
+    if cov2:
+        cov2["wall_s"] = round(time.time() - t1, 1)
+        ctx.coverage["layer1"] = {k: l1[k] for k in ("evaluations", "distinct_nontrivial", "rule", "samples", "traces_validated_against_impl",
+                                                     "correspondence_mismatches", "monitor_failures", "search_pool", "input_distribution") if k in l1}
+        ctx.coverage["layer2"] = dict(cov2, rule=RULE2)
+        ctx.coverage["evaluations"] = l1.get("evaluations", 0) + cov2["evaluations"]
+        ctx.coverage["distinct_nontrivial"] = l1.get("distinct_nontrivial", 0) + cov2["distinct_nontrivial"]
+        ctx.coverage["traces_validated_against_impl"] = l1.get("traces_validated_against_impl", 0) + cov2["traces_validated_against_impl"]
+        ctx.coverage["correspondence_mismatches"] = l1.get("correspondence_mismatches", 0) + cov2["correspondence_mismatches"]
+        ctx.coverage["monitor_failures"] = l1.get("monitor_failures", 0) + cov2["monitor_failures"]
+        ctx.coverage["rule"] = "layer 1: " + l1.get("rule", "") + " || " + RULE2
+        ctx.coverage["trusted_base"] = l1.get("trusted_base", []) + TRUSTED2
+        for k in ("samples", "input_distribution", "search_pool"):
+            ctx.coverage.pop(k, None)
+    ctx.finish()
+
+
+def run_layer1(ctx):
     built = {}
 
     def run_impl(lines):
